@@ -149,7 +149,8 @@ func c07Impl(f *server.ExtAuthZFilter, target string) (bool, error) {
 var (
 	c07Paths = []string{"", "/", "/a", "/a/b", "/b", "/a.css", "/b.css"}
 	c07Tails = []string{"", "?", "#", "?x=1", "?.css", "?p=/a", "?/a/b", "#/a", "#.css", "?x#.css", "#x?.css", "?^/a$",
-		"##", "#x#.css", "#.css#x", "#x#/a", "??", "?x?.css", "?x?/a", "#x#y#/a/b", "?x#y?z#.css", "%23.css", "%3F/a", ";.css", "/../a", "//a"}
+		"##", "#x#.css", "#.css#x", "#x#/a", "??", "?x?.css", "?x?/a", "#x#y#/a/b", "?x#y?z#.css", "%23.css", "%3F/a", ";.css", "/../a", "//a",
+		"?u=https://h/a/b", "?u=http://h/b.css", "#https://h/a", "?://h/a/b", "?x=1://y/.css", "://h/a", ":/a"}
 )
 
 func c07Patterns() []c07Pat {
